@@ -533,7 +533,10 @@ impl TokCase {
     }
 
     fn run_http(&self, body: &[u8]) -> Option<Seen> {
-        let http = |_r: HttpRequest| -> Result<HttpResponse, FakeErr> { Ok(response(200, Some(b"application/json"), body)) };
+        // the reply's Content-Type: the plain media type, absent, with a parameter, in another letter case — all of them JSON
+        // replies for the library (C05); which one is used must not matter for what is read from the document
+        let ct: Option<&[u8]> = [Some(&b"application/json"[..]), None, Some(&b"application/json; charset=utf-8"[..]), Some(&b"Application/JSON"[..])][((self.style >> 7) % 4) as usize];
+        let http = |_r: HttpRequest| -> Result<HttpResponse, FakeErr> { Ok(response(200, ct, body)) };
         let url = TokenUrl::new("https://as.example/token".into()).unwrap();
         macro_rules! go {
             ($client:expr, $ext:expr) => {{
